@@ -265,8 +265,8 @@ def model_document(netlist, ts):
     if not ans.startswith('ok '):
         raise RuntimeError('driver_edif emitfile: %s' % ans[:200])
     toks = ans.split(' ')
-    doc, _ = parse_wire(toks, 2)
-    return ('ok', int(toks[1]), doc)
+    doc, _ = parse_wire(toks, 5)
+    return ('ok', (int(toks[1]), toks[2] == '1', toks[3] == '1', toks[4] == '1'), doc)
 
 
 def check_written(netlist, doc, info=None, who='C03'):
@@ -296,10 +296,23 @@ def check_written(netlist, doc, info=None, who='C03'):
     if m[0] == 'raises':
         STATS['differs'] += 1
         return ['the writer model says compose raises, the composer wrote a file']
-    _, rt, mdoc = m
+    _, (rt, is_ordered, is_fix, writable), mdoc = m
     info['emit_rt'] = rt
+    info['emit_writable'] = writable
     STATS['compared'] += 1
     STATS['rt_status:%d' % rt] += 1
+    STATS['writable' if writable else 'not-writable'] += 1
+    if writable and rt != 0:
+        # C03_emit_roundtrip_full (not proved) refuted on this value
+        STATS['differs'] += 1
+        return ['EdifEmit.writable holds but rt_status = %d: the claimed class is too large (C03_emit_roundtrip_full fails on this value)' % rt]
+    if not is_ordered or not is_fix:
+        # the real pre-pass has just run: the value must be in dependency order (EdifEmit.ordered) and a
+        # fixpoint of the modelled pre-pass (Props/C16.v C16_emit_second_write)
+        STATS['differs'] += 1
+        return ['after compose the netlist value is %s' % ('not in dependency order (EdifEmit.ordered = false)' if not is_ordered
+                                                          else 'not a fixpoint of EdifEmit.prepass')]
+    STATS['ordered-and-prepass-fixpoint'] += 1
     if mdoc == doc:
         return []
     STATS['differs'] += 1
@@ -324,6 +337,10 @@ def rt_consistency(case):
             return {'kind': 'model-round-trip-fails-where-code-holds',
                     'detail': ['EdifEmit.rt_status = %d: %s; the implementation reads its file back to the same netlist' % (rt, RT_TEXT[rt])],
                     'signature': 'model-round-trip-fails-where-code-holds|unexplained'}, info
+        if res is not None and info.get('emit_writable') and res.get('kind') in ROUND_TRIP_KINDS + ('reparsed-netlist-not-well-formed',):
+            STATS['writable-but-code-round-trip-fails'] += 1
+            res = dict(res)
+            res['detail'] = list(res.get('detail', [])) + ['EdifEmit.writable holds on this value: inside the class of C03_emit_roundtrip_full']
         if res is not None and rt == 0 and res.get('kind') in ROUND_TRIP_KINDS:
             STATS['rt-disagrees-with-code'] += 1
             res = dict(res)
